@@ -179,6 +179,7 @@ def handleSeq (args impl : List String) : Verdict :=
           | ["force", d, b] => match d.toInt?, b.toNat? with
             | some d, some b => some (Ops.forceDuration d (b != 0) ys)
             | _, _ => none
+          | ["selfmerge"] => some (Ops.mergeItems ys ys)
           | ["swap"] =>
             -- the first and the last cue exchange their times (a re-timing by hand between two calls)
             match ys, ys.getLast? with
